@@ -427,7 +427,9 @@ fn monitor(m: Arc<Mon>) {
             last = prog;
             continue;
         }
-        let idle = (p.state == 'S' && idle_syscall(p.nr)) || in_write;
+        // a wait for the child on the runtime thread itself (instead of pool / pidfd readiness)
+        let in_wait = p.state == 'S' && (p.nr == libc::SYS_waitid || p.nr == libc::SYS_wait4);
+        let idle = (p.state == 'S' && idle_syscall(p.nr)) || in_write || in_wait;
         let cblk = c.blocked_read_stdin() || c.blocked_write_out();
         if cblk && idle && prog == last { same += 1 } else { same = 0 }
         if c.zombie_or_gone() && idle && !in_write && prog == last { zsame += 1 } else { zsame = 0 }
@@ -435,6 +437,8 @@ fn monitor(m: Arc<Mon>) {
         if same >= STUCK_SAMPLES {
             let cause = if in_write {
                 "thread_blocked_in_stdin_write"
+            } else if in_wait {
+                "thread_blocked_in_waitpid"
             } else if c.blocked_write_out() {
                 "child_blocked_writing_output"
             } else {
@@ -902,11 +906,12 @@ fn judge(case: &Value, p: &Prog, r: &CaseRun) -> Vec<Problem> {
     for (name, data, exp, eof) in [("stdout", &o.out, &eo, o.out_eof), ("stderr", &o.err, &ee, o.err_eof)] {
         if let Some(i) = exp.first_bad(data) {
             let what = if i >= exp.len() { "too_long" } else { "corrupt" };
+            let shown = if data.len() <= 64 { format!(" (read {:?})", String::from_utf8_lossy(data)) } else { String::new() };
             out.push(Problem {
                 ty: "contract",
                 sig: sig(p, &format!("{name}_content"), &[("what", json!(what))]),
                 desc: format!(
-                    "{name}: byte {i} of {} read differs from what the child wrote (expected length {}) [{class}]",
+                    "{name}: byte {i} of {} read differs from what the child must have written (expected length {}){shown} [{class}]",
                     data.len(),
                     exp.len()
                 ),
